@@ -331,6 +331,12 @@ class Model:
 
     def on_resched(self, r):
         self.last_resched[r['uid']] = r
+        if r.get('ctx') == 'all':
+            # libev rescheduling every periodic (after ev_loop_fork()), not an
+            # expiry: what the daemon answers is its own business; what counts
+            # are the executions it starts (R-ONCE)
+            self.probe('periodics_rescheduled_wholesale')
+            return
         # what the daemon asks to be woken for must be the task's next
         # occurrence: a daemon that sleeps past one is not "held up"
         if self.iter > 0 and not self.conn_of_cb():
